@@ -4875,6 +4875,24 @@ size_t ZSTD_compressBlock(ZSTD_CCtx* cctx, void* dst, size_t dstCapacity, const 
 /*! ZSTD_loadDictionaryContent() :
  *  @return : 0, or an error code
  */
+/* ZSTD_maxDictContentSize() :
+ * nb of bytes, counted from its end, that are kept of a dictionary which is too large to be indexed */
+U32 ZSTD_maxDictContentSize(const ZSTD_compressionParameters* cParams, ZSTD_tableFillPurpose_e tfp)
+{
+    /* Allow the dictionary to set indices up to exactly ZSTD_CURRENT_MAX. */
+    U32 maxDictSize = ZSTD_CURRENT_MAX - ZSTD_WINDOW_START_INDEX;
+    if (ZSTD_CDictIndicesAreTagged(cParams) && tfp == ZSTD_tfp_forCDict) {
+        /* Some dictionary matchfinders in zstd use "short cache",
+         * which treats the lower ZSTD_SHORT_CACHE_TAG_BITS of each
+         * CDict hashtable entry as a tag rather than as part of an index.
+         * When short cache is used, we need to truncate the dictionary
+         * so that its indices don't overlap with the tag. */
+        U32 const shortCacheMaxDictSize = (1u << (32 - ZSTD_SHORT_CACHE_TAG_BITS)) - ZSTD_WINDOW_START_INDEX;
+        maxDictSize = MIN(maxDictSize, shortCacheMaxDictSize);
+    }
+    return maxDictSize;
+}
+
 static size_t ZSTD_loadDictionaryContent(ZSTD_matchState_t* ms,
                                          ldmState_t* ls,
                                          ZSTD_cwksp* ws,
@@ -4896,19 +4914,8 @@ static size_t ZSTD_loadDictionaryContent(ZSTD_matchState_t* ms,
          * Dictionaries right at the edge will immediately trigger overflow
          * correction, but I don't want to insert extra constraints here.
          */
-        U32 maxDictSize = ZSTD_CURRENT_MAX - ZSTD_WINDOW_START_INDEX;
-
-        int const CDictTaggedIndices = ZSTD_CDictIndicesAreTagged(&params->cParams);
-        if (CDictTaggedIndices && tfp == ZSTD_tfp_forCDict) {
-            /* Some dictionary matchfinders in zstd use "short cache",
-             * which treats the lower ZSTD_SHORT_CACHE_TAG_BITS of each
-             * CDict hashtable entry as a tag rather than as part of an index.
-             * When short cache is used, we need to truncate the dictionary
-             * so that its indices don't overlap with the tag. */
-            U32 const shortCacheMaxDictSize = (1u << (32 - ZSTD_SHORT_CACHE_TAG_BITS)) - ZSTD_WINDOW_START_INDEX;
-            maxDictSize = MIN(maxDictSize, shortCacheMaxDictSize);
-            assert(!loadLdmDict);
-        }
+        U32 const maxDictSize = ZSTD_maxDictContentSize(&params->cParams, tfp);
+        assert(!(loadLdmDict && tfp == ZSTD_tfp_forCDict));
 
         /* If the dictionary is too large, only load the suffix of the dictionary. */
         if (srcSize > maxDictSize) {
